@@ -25,20 +25,73 @@ package composite
 // The verdict of the rule lists (custom rules, shared lists, blocked services)
 // for this request.
 //@ ghost lastRL internal.Result
+// The rule lists consulted for this request, in order, with their answers; and
+// what was added to the combined result, in order.
+//@ ghost asked int
+//@ ghost askedWho map[int]int
+//@ ghost askedRes map[int]int
+//@ ghost addedTo map[*rulelist.URLFilterResult]map[int]bool
+// This package's views of the rule lists (their verdicts are C12's subject):
+// a consultation is recorded; the answer may be nil.
+//@ func (*rulelist.filter).DNSResult
+//@   modifies asked, askedWho, askedRes
+//@   ensures asked == old(asked) + 1 && askedWho[old(asked)] == f && askedRes[old(asked)] == res &&
+//@           (forall k int :: k != old(asked) ==> askedWho[k] == old(askedWho[k]) && askedRes[k] == old(askedRes[k]))
+//@ func (*rulelist.Refreshable).DNSResult
+//@   modifies asked, askedWho, askedRes
+//@   ensures asked == old(asked) + 1 && askedWho[old(asked)] == f && askedRes[old(asked)] == res &&
+//@           (forall k int :: k != old(asked) ==> askedWho[k] == old(askedWho[k]) && askedRes[k] == old(askedRes[k]))
+//@ func (*rulelist.Refreshable).ID
+//@   modifies nothing
+// urlfilter's DNSResult.DNSRewrites only reads its receiver.
+//@ pure (*urlfilter.DNSResult).DNSRewrites
+// $dnsrewrite processing builds messages with the requester's constructor; it
+// leaves the filters and the combined result alone.
+//@ func rulelist.ProcessDNSRewrites
+//@   modifies heap
+//@   preserves Filter.*, rulelist.URLFilterResult.*, rulelist.Immutable.*, allelems(internal.RequestFilter), allelems(*rulelist.Refreshable), allelems(*rulelist.Immutable)
+//@   ensures res == nil || isptr(res, internal.ResultModifiedRequest) || isptr(res, internal.ResultModifiedResponse)
+// Add appends the matches of one list (nothing for a nil answer).
+//@ func (*rulelist.URLFilterResult).Add
+//@   requires r != nil
+//@   modifies rulelist.URLFilterResult.*, addedTo[r]
+//@   ensures dr != nil ==> addedTo[r][dr]
+//@   ensures forall x int :: x != dr ==> addedTo[r][x] == old(addedTo[r][x])
+// (the conversion of the combined result is proved in rulelist; here only its shape)
+//@ func (*rulelist.URLFilterResult).ToInternal
+//@   modifies nothing
+//@   ensures res == nil || ((isptr(res, internal.ResultAllowed) || isptr(res, internal.ResultBlocked)) && ref(res) != 0)
+
+// The verdict of the rule lists for this request: the profile's own (custom)
+// rules are consulted first - their rewrites are applied before any shared
+// list is asked - and their matches are the first in the combined result, so
+// that among rules of equal rank the profile's own one decides.
+//@ pred custF(f *Filter) = f.custom.filter
 //@ func (*Filter).filterReqWithRuleLists
-//@   modifies heap, lastRL
+//@   property C02
+//@   requires f != nil && req != nil && (f.custom != nil ==> f.custom.filter != nil) &&
+//@            (forall i int :: 0 <= i && i < len(f.ruleLists) ==> f.ruleLists[i] != nil && f.ruleLists[i].filter != nil) && (forall i int :: 0 <= i && i < len(f.svcLists) ==> f.svcLists[i] != nil && f.svcLists[i].filter != nil)
+//@   modifies heap, lastRL, asked, askedWho, askedRes, addedTo
 //@   preserves allelems(internal.RequestFilter)
+//@   ghostset lastRL = r
+//@   atcall ProcessDNSRewrites assert the-profiles-own-rules-are-consulted-first: f.custom != nil ==> asked > old(asked) && askedWho[old(asked)] == custF(f)
+//@   atcall Add assert the-profiles-own-matches-are-added-before-any-others: f.custom != nil && askedRes[old(asked)] != 0 && arg1 != askedRes[old(asked)] ==> addedTo[arg0][askedRes[old(asked)]]
 //@   ensures lastRL == r
 //@   ensures r == nil || isptr(r, internal.ResultAllowed) || isptr(r, internal.ResultBlocked) || isptr(r, internal.ResultModifiedRequest) || isptr(r, internal.ResultModifiedResponse)
 //@   ensures isptr(r, internal.ResultAllowed) ==> asptr(r, internal.ResultAllowed) != nil
+//@   loop 1 invariant -1 <= #i && #i < len(f.ruleLists) && ufRes != nil && fresh(ufRes) && asked >= old(asked) && (f.custom != nil ==> asked > old(asked) && askedWho[old(asked)] == custF(f))
+//@   loop 1 invariant f.custom != nil && askedRes[old(asked)] != 0 ==> addedTo[ufRes][askedRes[old(asked)]]
+//@   loop 2 invariant -1 <= #i && #i < len(f.svcLists) && ufRes != nil && fresh(ufRes) && asked >= old(asked) && (f.custom != nil ==> asked > old(asked) && askedWho[old(asked)] == custF(f))
+//@   loop 2 invariant f.custom != nil && askedRes[old(asked)] != 0 ==> addedTo[ufRes][askedRes[old(asked)]]
 
 //@ pred custAllow(r internal.Result) = isptr(r, internal.ResultAllowed) && asptr(r, internal.ResultAllowed).List == "custom"
 //@ pred decisive(r internal.Result) = isptr(r, internal.ResultBlocked) || isptr(r, internal.ResultModifiedRequest) || isptr(r, internal.ResultModifiedResponse)
 
 //@ func (*Filter).FilterRequest
 //@   property C02
-//@   requires f != nil && req != nil && (forall i int :: 0 <= i && i < len(f.reqFilters) ==> ref(f.reqFilters[i]) != 0)
-//@   modifies heap, lastRL, rfCalls, rfAt, rfRes, rfErr
+//@   requires f != nil && req != nil && (forall i int :: 0 <= i && i < len(f.reqFilters) ==> ref(f.reqFilters[i]) != 0) && (f.custom != nil ==> f.custom.filter != nil) &&
+//@            (forall i int :: 0 <= i && i < len(f.ruleLists) ==> f.ruleLists[i] != nil && f.ruleLists[i].filter != nil) && (forall i int :: 0 <= i && i < len(f.svcLists) ==> f.svcLists[i] != nil && f.svcLists[i].filter != nil)
+//@   modifies heap, lastRL, rfCalls, rfAt, rfRes, rfErr, asked, askedWho, askedRes, addedTo
 //@   ensures own-allow-rule-ends-filtering: custAllow(lastRL) ==> r == lastRL && err == nil && rfCalls == old(rfCalls)
 //@   ensures block-or-rewrite-by-a-rule-wins: decisive(lastRL) ==> r == lastRL && err == nil && rfCalls == old(rfCalls)
 //@   ensures safety-filters-in-their-order: !custAllow(lastRL) && !decisive(lastRL) ==>
